@@ -27,6 +27,7 @@ ASSUMPTIONS = [
     "location expressions from the grammar in props/c08_storage.py; symbolic keys/indices x, y range over {0,1,2} (colliding with the concrete keys and slots used)",
     "reference: flat dict with real keccak; loaded values are observed as return data",
     "paths halmos marks stuck (e.g. a symbolic plain slot under the solidity layout) make no claim here (C10 demands the non-PASS status)",
+    "symbolic storage (vm.enableSymbolicStorage): the same programs with the account's storage symbolic; the reference starts from the admissible initial state 'every slot holds 0x77', so a never-written slot must read 0x77 on some reported path and a written one its last write",
     "hash range/injectivity are documented assumptions of halmos; the domain stays far from the excluded range",
 ]
 
@@ -118,9 +119,13 @@ def programs(level, maxlen):
 D = [0, 1, 2]
 
 
-def mk_spec(stmts, layout):
+INIT = 0x77  # contents of every slot that was never written when the account has symbolic storage (one admissible initial state)
+
+
+def mk_spec(stmts, layout, symst=False):
     code = grammar.build(stmts, probes_s=(), probes_t=())
     return {
+        **({"symbolic_storage": INIT} if symst else {}),
         "accounts": {"0xaaaa": {"code": code.hex(), "balance": None}},
         "target": 0xAAAA, "caller": 0xB1, "origin": 0xB1, "value": 0,
         "calldata": [["sym", "x", 32], ["sym", "y", 32]],
@@ -131,11 +136,14 @@ def mk_spec(stmts, layout):
 GRID = [{"x": a, "y": b} for a in D for b in D]
 
 
-def check_prog(acc, stmts, layout):
-    spec = mk_spec(stmts, layout)
+def check_prog(acc, stmts, layout, symst=False):
+    spec = mk_spec(stmts, layout, symst)
     name = grammar.prog_str(stmts)
     acc.count("programs")
-    case = {"stmts": stmts, "layout": layout}
+    case = {"stmts": stmts, "layout": layout, "symst": symst}
+    if symst:
+        acc.count("programs_symbolic_storage")
+        layout = layout + "+symst"
     try:
         results = hdriver.run_halmos(spec)
     except Exception as e:
@@ -239,6 +247,8 @@ def run_shard(shard):
             continue
         for layout in ("solidity", "generic"):
             check_prog(acc, stmts, layout)
+            if shard["level"] == "reduced" or shard["maxlen"] < 3 or k % 3 == 0:
+                check_prog(acc, stmts, layout, symst=True)
         if k < 2 * shard["n"]:
             acc.sample({"program": grammar.prog_str(stmts), "layouts": ["solidity", "generic"], "key_valuations": len(GRID)})
     return acc.result()
@@ -252,6 +262,7 @@ def coverage(tier, merged):
         "traces_validated_against_impl": c.get("pairs", 0),
         "programs": c.get("programs", 0),
         "programs_with_stuck_paths": c.get("programs_with_stuck_paths", 0),
+        "programs_under_symbolic_storage": c.get("programs_symbolic_storage", 0),
         "table_entries_recomputed": c.get("table_entries", 0),
         "offsetmap_probes": c.get("offsetmap_probes", 0),
         "location_forms": {lvl: len(locations(lvl)) for lvl, _ in bounds(tier)},
@@ -268,7 +279,7 @@ def replay(case):
     hdriver.install_uid()
     acc = Acc()
     if "stmts" in case:
-        check_prog(acc, detuple(case["stmts"]), case["layout"])
+        check_prog(acc, detuple(case["stmts"]), case["layout"], case.get("symst", False))
     else:
         check_tables(acc)
     v = acc.result()["violations"]
